@@ -17,23 +17,25 @@ Definition par2 (p1 : nat) (v1 : Q) (p2 : nat) (v2 : Q) : nat -> Q :=
 Definition no_inf : nat -> bool := fun _ => false.
 Definition no_Lk : nat -> Q := fun _ => 0%Q.
 
-Ltac nodup := unfold NoDupKeys, keys; cbn [map fst]; repeat constructor; cbn [In]; intuition (try discriminate; try lia).
-Ltac wf_sample_tac := unfold wf_sample; cbn [s_x s_g s_f]; repeat split; nodup.
+Ltac nodup := unfold NoDupKeys, keys; cbn; repeat constructor; cbn; intuition (try discriminate; try lia).
+Ltac wf_sample_tac := unfold wf_sample; cbn; repeat split; nodup.
 Ltac in_cases H := cbn [In] in H; repeat (destruct H as [H|H]; [subst|]); [..|destruct H].
+Ltac wf_list_tac := let s := fresh "s" in let H := fresh "H" in intros s H; in_cases H; wf_sample_tac.
 Ltac wf_state_tac :=
-  unfold wf_state; cbn [f_points f_stat f_tpoints f_v];
-  repeat split; try (let s := fresh "s" in let H := fresh "H" in intros s H; in_cases H; wf_sample_tac); try nodup.
+  unfold wf_state; cbn; split; [|split; [|split]];
+  [ wf_list_tac | wf_list_tac | wf_list_tac | first [exact I | nodup] ].
+Ltac finish := repeat (split; [assumption|]); try split; vm_compute; reflexivity.
 Ltac calc := cbn; unfold Q2R; cbn; lra.
 
 (** ** 1. a smooth class: SmoothConvexFunction(L = 2), F x = x^2 on the real line *)
-Definition ex1_rho : nat -> R1 := leaf_vals (0 : R) [1; 2; 0; -1].
+Definition ex1_rho : nat -> R1 := @leaf_vals R 0 [1; 2; 0; -1].
 Definition ex1_phi : nat -> R := leaf_vals 0 [1; 0].
 Definition ex1_s1 := mkSample [(0%nat, 1%Q)] [(1%nat, 1%Q)] [(KF 0, 1%Q)] (Some "x0"%string) 0 1 2 [].   (* (1, 2, 1) *)
 Definition ex1_s2 := mkSample [(2%nat, 1%Q)] [] [(KF 1, 1%Q)] None 3 4 5 [].                                (* stationary (0, 0, 0) *)
 Definition ex1_s3 := mkSample [(0%nat, 1%Q); (3%nat, 2%Q)] [(1%nat, (-1)%Q)] [(KF 0, 1%Q)] None 6 7 8 [].  (* x0 + 2 p3 = -1: (-1, -2, 1) *)
 Definition ex1_st : fstate :=
   mkF "f" (par1 0 2%Q) no_inf [ex1_s1; ex1_s2; ex1_s3] [ex1_s2] [] None 4 2 9 0 no_Lk.
-Definition ex1_F : @dfn R1 := mkD (fun x : R => x * x) (fun x : R => 2 * x).
+Definition ex1_F : @dfn R1 := @mkD R1 (fun x : R => x * x) (fun x : R => 2 * x).
 
 Lemma ex1_member : smooth_convex_member 2 ex1_F.
 Proof. exact (proj1 smooth_classes_nonvacuous). Qed.
@@ -49,20 +51,20 @@ Proof.
   assert (H4 : wf_state ex1_st) by wf_state_tac.
   assert (H5 : forall s, In s (f_points ex1_st) -> genuine_grad ex1_F (sval ex1_rho ex1_phi s)).
   { intros s H. cbn [f_points ex1_st] in H. in_cases H; (split; [intro w; calc|calc]). }
-  repeat split; try assumption; try exact ex1_member.
-  - apply (c03_SmoothConvexFunction ex1_rho ex1_phi 2 ex1_F ex1_st H1 ex1_member H3 H4 H5).
-  - apply (c03_SmoothConvexFunction ex1_rho ex1_phi 2 ex1_F ex1_st H1 ex1_member H3 H4 H5).
+  pose proof ex1_member as H2.
+  pose proof (c03_SmoothConvexFunction ex1_rho ex1_phi 2 ex1_F ex1_st H1 H2 H3 H4 H5) as Hall.
+  finish.
 Qed.
 
 (** ** 2. a non-smooth class: ConvexFunction, F x = |x|, with a subgradient 1/2 chosen at the kink *)
-Definition ex2_rho : nat -> R1 := leaf_vals (0 : R) [1; 1; -2; -1; 0; 1].
+Definition ex2_rho : nat -> R1 := @leaf_vals R 0 [1; 1; -2; -1; 0; 1].
 Definition ex2_phi : nat -> R := leaf_vals 0 [1; 2; 0].
 Definition ex2_s1 := mkSample [(0%nat, 1%Q)] [(1%nat, 1%Q)] [(KF 0, 1%Q)] None 0 1 2 [].            (* (1, 1, 1) *)
 Definition ex2_s2 := mkSample [(2%nat, 1%Q)] [(3%nat, 1%Q)] [(KF 1, 1%Q)] None 3 4 5 [].            (* (-2, -1, 2) *)
 Definition ex2_s3 := mkSample [(4%nat, 1%Q)] [(5%nat, (1 # 2)%Q)] [(KF 2, 1%Q)] None 6 7 8 [].      (* (0, 1/2, 0) *)
 Definition ex2_st : fstate :=
   mkF "f" (fun _ => 0%Q) no_inf [ex2_s1; ex2_s2; ex2_s3; ex2_s1] [] [] None 6 3 9 0 no_Lk.      (* s1 recorded twice *)
-Definition ex2_F : @fn R1 := mkFn (fun _ => True) (fun x : R => Rabs x).
+Definition ex2_F : @fn R1 := @mkFn R1 (fun _ => True) (fun x : R => Rabs x).
 
 Example ex_ConvexFunction :
   wf_state ex2_st /\
@@ -73,22 +75,21 @@ Proof.
   assert (H4 : wf_state ex2_st) by wf_state_tac.
   assert (H5 : forall s, In s (f_points ex2_st) -> genuine_sub ex2_F (sval ex2_rho ex2_phi s)).
   { intros s H. cbn [f_points ex2_st] in H.
-    in_cases H; (split; [split; [exact I|intros y _]|]); cbn; unfold Q2R; cbn; change R in *;
+    in_cases H; (split; [split; [exact I|intros y _; change R in y]|]); cbn; unfold Q2R; cbn;
       unfold Rabs; repeat destruct Rcase_abs; lra. }
-  repeat split; try assumption.
-  - apply (c03_ConvexFunction ex2_rho ex2_phi ex2_F ex2_st H4 H5).
-  - apply (c03_ConvexFunction ex2_rho ex2_phi ex2_F ex2_st H4 H5).
+  pose proof (c03_ConvexFunction ex2_rho ex2_phi ex2_F ex2_st H4 H5) as Hall.
+  finish.
 Qed.
 
 (** ** 3. ConvexIndicatorFunction(D = 2): the indicator of [-1, 1] *)
-Definition ex3_rho : nat -> R1 := leaf_vals (0 : R) [1; 3; 0; -1].
+Definition ex3_rho : nat -> R1 := @leaf_vals R 0 [1; 3; 0; -1].
 Definition ex3_phi : nat -> R := leaf_vals 0 [0; 0; 0].
 Definition ex3_s1 := mkSample [(0%nat, 1%Q)] [(1%nat, 1%Q)] [(KF 0, 1%Q)] None 0 1 2 [].            (* (1, 3, 0): 3 in N_C(1) *)
 Definition ex3_s2 := mkSample [(2%nat, 1%Q)] [] [(KF 1, 1%Q)] None 3 4 5 [].                        (* (0, 0, 0) *)
 Definition ex3_s3 := mkSample [(3%nat, 1%Q)] [(3%nat, 1%Q)] [(KF 2, 1%Q)] None 6 7 8 [].            (* (-1, -1, 0) *)
 Definition ex3_st : fstate :=
   mkF "f" (par1 3 2%Q) no_inf [ex3_s1; ex3_s2; ex3_s3] [] [] None 4 3 9 0 no_Lk.
-Definition ex3_F : @fn R1 := mkFn (fun x : R => -1 <= x <= 1) (fun _ => 0).
+Definition ex3_F : @fn R1 := @mkFn R1 (fun x : R => -1 <= x <= 1) (fun _ => 0).
 
 Example ex_ConvexIndicatorFunction :
   indicator_member (Some 2) ex3_F /\ opt_par_is ex3_st 3 (Some 2) /\ wf_state ex3_st /\
@@ -102,14 +103,13 @@ Proof.
   assert (H4 : wf_state ex3_st) by wf_state_tac.
   assert (H5 : forall s, In s (f_points ex3_st) -> genuine_sub ex3_F (sval ex3_rho ex3_phi s)).
   { intros s H. cbn [f_points ex3_st] in H.
-    in_cases H; (split; [split; [|intros y Hy]|]); cbn in *; unfold Q2R; cbn; change R in *; lra. }
-  repeat split; try assumption; try (intros; reflexivity); try apply H1.
-  - apply (c03_ConvexIndicatorFunction ex3_rho ex3_phi (Some 2) ex3_F ex3_st H1 H3 H4 H5).
-  - apply (c03_ConvexIndicatorFunction ex3_rho ex3_phi (Some 2) ex3_F ex3_st H1 H3 H4 H5).
+    in_cases H; (split; [split; [|intros y Hy; change R in y]|]); cbn in *; unfold Q2R; cbn; lra. }
+  pose proof (c03_ConvexIndicatorFunction ex3_rho ex3_phi (Some 2) ex3_F ex3_st H1 H3 H4 H5) as Hall.
+  finish.
 Qed.
 
 (** ** 4. an operator class: CocoerciveOperator(beta = 1/2), A x = 2 x *)
-Definition ex4_rho : nat -> R1 := leaf_vals (0 : R) [1; 2; 0; 3].
+Definition ex4_rho : nat -> R1 := @leaf_vals R 0 [1; 2; 0; 3].
 Definition ex4_s1 := mkSample [(0%nat, 1%Q)] [(1%nat, 1%Q)] [(KF 0, 1%Q)] None 0 1 2 [].                    (* (1, 2) *)
 Definition ex4_s2 := mkSample [(2%nat, 1%Q)] [(2%nat, 1%Q)] [(KF 1, 1%Q)] None 3 4 5 [].                    (* fixed point of I - A... (0, 0) *)
 Definition ex4_s3 := mkSample [(3%nat, (1 # 2)%Q); (0%nat, 1%Q)] [(3%nat, 1%Q); (1%nat, 1%Q)] [(KF 2, 1%Q)] None 6 7 8 []. (* (5/2, 5) *)
@@ -128,14 +128,13 @@ Proof.
   assert (H4 : wf_state ex4_st) by wf_state_tac.
   assert (H5 : forall s, In s (f_points ex4_st) -> genuine_op ex4_A (sval ex4_rho (fun _ => 0) s)).
   { intros s H. cbn [f_points ex4_st] in H. in_cases H; unfold ex4_A; calc. }
-  repeat split; try assumption.
-  - apply (c03_CocoerciveOperator ex4_rho (fun _ => 0) (1 / 2) ex4_A ex4_st H1 H3 H4 H5).
-  - apply (c03_CocoerciveOperator ex4_rho (fun _ => 0) (1 / 2) ex4_A ex4_st H1 H3 H4 H5).
+  pose proof (c03_CocoerciveOperator ex4_rho (fun _ => 0) (1 / 2) ex4_A ex4_st H1 H3 H4 H5) as Hall.
+  finish.
 Qed.
 
 (** ** 5. a linear-operator class with LMIs: LinearOperator(L = 1), the quarter turn J of R^2 and its
        transpose; two samples of J, one of J^T *)
-Definition ex5_rho : nat -> Rn 2 := leaf_vals (vec2 0 0) [vec2 1 0; vec2 0 1; vec2 0 2; vec2 (-2) 0; vec2 0 (-1)].
+Definition ex5_rho : nat -> Rn 2 := @leaf_vals (nat -> R) (vec2 0 0) [vec2 1 0; vec2 0 1; vec2 0 2; vec2 (-2) 0; vec2 0 (-1)].
 Definition ex5_s1 := mkSample [(0%nat, 1%Q)] [(1%nat, 1%Q)] [] None 0 1 2 [].                               (* x = e1, J x = e2 *)
 Definition ex5_s2 := mkSample [(0%nat, 1%Q); (2%nat, 1%Q)] [(3%nat, 1%Q); (1%nat, 1%Q)] [] None 3 4 5 [].   (* x = (1,2), J x = (-2,1) *)
 Definition ex5_t1 := mkSample [(0%nat, 1%Q)] [(4%nat, 1%Q)] [] None 6 7 8 [].                               (* u = e1, J^T u = -e2 *)
@@ -161,18 +160,18 @@ Proof.
   assert (H6 : forall s, In s (f_tpoints ex5_st) -> genuine_lin ex5_Jt (sval ex5_rho (fun _ => 0) s)).
   { intros s H. cbn [f_tpoints ex5_st] in H.
     in_cases H; apply veq_Rn2; unfold ex5_Jt, mat2, vec2; cbn; unfold Q2R; cbn; split; lra. }
-  pose proof (c03_LinearOperator ex5_rho (fun _ => 0) 1 ex5_J ex5_Jt ex5_st H1 H3 H4 H5 H6) as [Hc Hl].
-  repeat split; try assumption; try apply H1.
+  pose proof (c03_LinearOperator ex5_rho (fun _ => 0) 1 ex5_J ex5_Jt ex5_st H1 H3 H4 H5 H6) as Hall.
+  finish.
 Qed.
 
 (** ** 6. SmoothStronglyConvexQuadraticFunction(mu = 1, L = 3):
        F x = 5 + 1/2 <x - xs, Q (x - xs)>, Q = [[2,1],[1,2]], xs = (1,1); the stationary sample created
        by the constructor comes first *)
-Definition ex6_rho : nat -> Rn 2 := leaf_vals (vec2 0 0) [vec2 1 1; vec2 2 1; vec2 0 (-1)].
+Definition ex6_rho : nat -> Rn 2 := @leaf_vals (nat -> R) (vec2 0 0) [vec2 1 1; vec2 2 1; vec2 0 (-1)].
 Definition ex6_phi : nat -> R := leaf_vals 0 [5; 6].
 Definition ex6_s0 := mkSample [(0%nat, 1%Q)] [] [(KF 0, 1%Q)] None 0 1 2 [].                                 (* (xs, 0, 5) *)
 Definition ex6_s1 := mkSample [(1%nat, 1%Q)] [(1%nat, 1%Q)] [(KF 1, 1%Q)] None 3 4 5 [].                     (* x = (2,1), g = (2,1), f = 6 *)
-Definition ex6_s2 := mkSample [(0%nat, 1%Q); (2%nat, 1%Q)] [(2%nat, 1%Q); (1%nat, (-1)%Q); (0%nat, 1%Q)] [(KF 0, 1%Q); (K1, 1%Q)] None 6 7 8 [].
+Definition ex6_s2 := mkSample [(0%nat, 1%Q); (2%nat, 1%Q)] [(2%nat, 2%Q); (1%nat, (-1)%Q); (0%nat, 1%Q)] [(KF 0, 1%Q); (K1, 1%Q)] None 6 7 8 [].
                                                                        (* x = (1,0), x - xs = (0,-1), g = (-1,-2), f = 5 + 1 *)
 Definition ex6_st : fstate :=
   mkF "f" (par2 0 3%Q 1 1%Q) no_inf [ex6_s0; ex6_s1; ex6_s2] [ex6_s0] [] None 3 2 9 0 no_Lk.
@@ -194,6 +193,6 @@ Proof.
              genuine_quad ex6_Q (stat_x ex6_rho ex6_st) (stat_f ex6_rho ex6_phi ex6_st) (sval ex6_rho ex6_phi s)).
   { intros s H. cbn [f_points ex6_st] in H.
     in_cases H; (split; [apply veq_Rn2|]); unfold ex6_Q, mat2, vec2, vsub, vneg; cbn; unfold Q2R; cbn; try split; lra. }
-  pose proof (c03_SmoothStronglyConvexQuadraticFunction ex6_rho ex6_phi 1 3 ex6_Q ex6_st H1 H2 H3 H4 H5) as [Hc Hl].
-  repeat split; try assumption; try apply H1.
+  pose proof (c03_SmoothStronglyConvexQuadraticFunction ex6_rho ex6_phi 1 3 ex6_Q ex6_st H1 H2 H3 H4 H5) as Hall.
+  finish.
 Qed.
